@@ -73,15 +73,17 @@ def determinism(props, n_per_prop, verif_seed, tier="quick"):
                 print(f"selftest-determinism: worker for {prop} hashseed={hs} jobs={jobs} failed:\n{se[-2000:]}")
                 return 2
             results.append(json.loads(line[0][7:]))
+        bad_here = 0
         for idx in results[0]:
             total += 1
             ds = [json.dumps(r[idx]) for r in results]
             if len(set(ds)) != 1:
                 bad += 1
+                bad_here += 1
                 print(f"NONDETERMINISM property={prop} run={idx} seed={run_seed(verif_seed, int(idx))}: {ds}")
         print(f"selftest-determinism: {prop}: {len(results[0])} seeds x {len(configs)} executions "
               f"(hash seeds {[c[0] for c in configs]}, worker counts {[c[1] for c in configs]}) "
-              f"{'identical' if not bad else 'DIFFER'}", flush=True)
+              f"{'identical' if not bad_here else 'DIFFER'}", flush=True)
     print(f"selftest-determinism: {total} seeds, {bad} with differing digests")
     return 0 if bad == 0 else 2
 
